@@ -138,9 +138,15 @@ type inst struct {
 	inDeep    bool
 	hold      *replica.VerifHold // non-nil while the hole-punching goroutine is stalled (held-hole schedules)
 	sinceHold string
+	hazard    string // set when the path ran into a history class that is a recorded known finding
 }
 
 func (x *inst) violate(oracle, sig, detail string) {
+	if x.hazard != "" {
+		// the history contains a recorded hazard (known_findings.json): the signature names the history class, not the
+		// I/O shape at which the damage happens to show
+		sig = oracle + ":" + x.hazard
+	}
 	x.viol = append(x.viol, kernel.Violation{Oracle: oracle, Signature: sig, Detail: detail})
 }
 
@@ -361,6 +367,21 @@ func (x *inst) apply(ev string) {
 	m := x.m
 	x.cnt["ev_"+f[0]]++
 	switch f[0] {
+	case "Reload", "ReloadULM", "ULMW", "Revert", "ReopenP":
+		// a preload (with reclamation on) between the coalesce and the unlink of a deletion
+		if types.ShouldPunchHoles || f[0] != "ReopenP" {
+			for _, s := range m.Chain {
+				if s.Folded {
+					s.Deduped = true
+				}
+			}
+		}
+	case "RmF":
+		if m.Chain[atoi(f[1])].Deduped {
+			x.hazard = "preload-between-coalesce-and-unlink"
+		}
+	}
+	switch f[0] {
 	case "W":
 		off, n := atoi(f[1]), atoi(f[2])
 		buf := make([]byte, n*Sector)
@@ -445,6 +466,39 @@ func (x *inst) apply(ev string) {
 			}
 		}
 		x.observe("%s ok %d ops", ev, len(ops))
+		m.Remove(i)
+	case "Fold":
+		// second step of a deletion (what the cleaner / the delete task run through the sync agent after
+		// PrepareRemoveDisk): coalesce the marked snapshot into its parent.  The replica keeps serving in between.
+		i := atoi(f[1])
+		s := m.Chain[i]
+		ops, err := x.prepare(ev, disk(s.Name))
+		if err != nil {
+			x.violate("remove-failed", "prepare-remove-failed", fmt.Sprintf("%s (%s): %v", ev, s.Name, err))
+			return
+		}
+		for _, op := range ops {
+			if op.Action == replica.OpCoalesce {
+				if err := x.guard(ev, func() error {
+					return sparse.FoldFile(filepath.Join(x.dir, op.Source), filepath.Join(x.dir, op.Target), foldStub{})
+				}); err != nil {
+					x.violate("remove-failed", "remove-failed:"+op.Action, fmt.Sprintf("%s (%s) op %+v: %v", ev, s.Name, op, err))
+					return
+				}
+			}
+		}
+		s.Folded = true
+		x.observe("%s ok", ev)
+	case "RmF":
+		// third step: unlink the coalesced snapshot
+		i := atoi(f[1])
+		s := m.Chain[i]
+		err := x.guard(ev, func() error { return x.srv.RemoveDiffDisk(disk(s.Name)) })
+		x.observe("%s -> %v", ev, err != nil)
+		if err != nil {
+			x.violate("remove-failed", "remove-failed:remove", fmt.Sprintf("%s (%s): %v", ev, s.Name, err))
+			return
+		}
 		m.Remove(i)
 	case "Revert":
 		i := atoi(f[1])
